@@ -24,6 +24,7 @@ PL = "chiritori/src/code/formatter/prev_line_break_remover.rs"
 NL = "chiritori/src/code/formatter/next_line_break_remover.rs"
 FA = "chiritori/src/code/remover/marker/factory.rs"
 CLI = "chiritori-cli/src/main.rs"
+LM = "chiritori/src/code/utils/line_map.rs"
 
 C = []
 
@@ -399,6 +400,16 @@ rmut("rf-cli-r2-4+flag-names-dropped", "cli-r2-4", "C20", "C20.R2", (CLI, "    m
 rmut("rf-par-r2-2+eof-keeps-looping", "par-r2-2", "C10", "C10.R", (PA, "            State::Closed((t, el)) => return (cursor, Some((t, el))),", "            State::Closed((t, el)) => { let _ = (t, el); }"))
 rmut("rf-tok-r2-1+renamed-counter-by-two", "tok-r2-1", "C07", "C07.R", (TK, "                char_pos + 1,", "                char_pos + 2,"))
 rmut("rf-lst-r2-1+renamed-scanner-steps-two", "lst-r2-1", "C02", "C02.R4", (LB, "        pos -= 1;\n", "        pos -= 2;\n"))
+
+# round 3 of the refactorings (inline helper / reorder / move / alternative spelling) and the additive changes
+rmut("rf-rem-r3-1+inline-skip-by-value", "rem-r3-1", "C06", "C06.R", (RM, 'el.start_element.attrs.iter().any(|v| v.name == "skip")', 'el.start_element.attrs.iter().any(|v| v.name == "skip" && v.value.is_none())'))
+rmut("rf-eva-r3-1+indent-remover-dropped", "eva-r3-1", "C13", "C13.R1", (CH, "        Box::new(formatter::indent_remover::IndentRemover {}),\n", ""))
+rmut("rf-lst-r3-1+newline-skipped", "lst-r3-1", "C02", "C02.R4", (CP, "                Some(b'\\t') => {}", "                Some(b'\\t') | Some(b'\\n') => {}"))
+rmut("rf-lst-r3-4+find-line-strict", "lst-r3-4", "C16", "C16.R7", (LM, "line_map.iter().take_while(|v| **v <= needle).count() + 1", "line_map.iter().take_while(|v| **v < needle).count() + 1"))
+rmut("rf-cli-r3-4+stops-after-first", "cli-r3-4", "C20", "C20.R2", (CLI, "        .take_while(Result::is_ok)", "        .take(1)\n        .take_while(Result::is_ok)"))
+rmut("rf-fmt-r3-1+hull-shrinks", "fmt-r3-1", "C13", "C13.R1", (FM, "            let start = start.min(range.start);", "            let start = start.max(range.start);"))
+rmut("rf-cli-r3-1+inline-reader-skips", "cli-r3-1", "C20", "C20.R2", (CLI, "reader.lines().map_while(Result::ok).collect::<Vec<_>>()", "reader.lines().skip(1).map_while(Result::ok).collect::<Vec<_>>()"))
+rmut("rf-add-cli-2+stats-on-stdout", "add-cli-2", "C20", "C20.R4", (CLI, "        eprintln!(", "        println!("))
 
 with open(os.path.join(os.path.dirname(os.path.abspath(__file__)), "mutants.json"), "w") as f:
     json.dump(C, f, indent=1)
